@@ -65,7 +65,7 @@ func zzEnt(be bool, id, typ uint16, cnt, val uint32) []byte {
 }
 
 // (iii) paired end-to-end: one logical IFD0 record, II and MM encodings, equal results. Parts: field kinds.
-func zzC07_pair_N() int { return 6 }
+func zzC07_pair_N() int { return 7 }
 func zzC07_pair() {
 	var a, b Exif
 	var ea, eb error
@@ -121,6 +121,34 @@ func zzC07_pair() {
 		a, ea = zzDecodeOne(false, zzEnt(false, 0x0132, 2, 20, 26), v)
 		b, eb = zzDecodeOne(true, zzEnt(true, 0x0132, 2, 20, 26), v)
 		zzAssert((ea == nil) == (eb == nil) && a.Time.modifyDate == b.Time.modifyDate, "DateTime decodes alike under II and MM")
+	case 6: // GPS directory: reference tags (BYTE / ASCII embedded) and altitude, II vs MM
+		ar, lr := zzU8("ar"), zzU8("lr")
+		zzAssume(ar <= 1 && (lr == 'N' || lr == 'S'))
+		an, ad := zzU32("an"), zzU32("ad")
+		var res [2]Exif
+		var errs [2]error
+		for k, be := range []bool{false, true} {
+			t := zzNewTiff(26+2+3*12+4+8, be, 8)
+			t.dir(8, 1, 0)
+			t.ent(8, 0, 0x8825, 4, 1, 26)
+			t.dir(26, 3, 0)
+			t.entRaw(26, 0, 0x0001, 2, 2, []byte{lr, 0})
+			t.entRaw(26, 1, 0x0005, 1, 1, []byte{ar})
+			t.ent(26, 2, 0x0006, 5, 1, 68)
+			t.put32(68, an)
+			t.put32(72, ad)
+			rr := bufio.NewReaderSize(zzReaderOf(t.b), 4096)
+			h, err := tiff.ScanTiffHeader(rr, imagetype.ImageTiff)
+			zzAssert(err == nil, "header found")
+			ir := NewIfdReader(Logger)
+			errs[k] = ir.DecodeTiff(rr, h)
+			res[k] = ir.Exif
+			ir.Close()
+		}
+		zzAssert((errs[0] == nil) == (errs[1] == nil), "GPS directory decodes alike under II and MM (error)")
+		zzAssert(res[0].GPS.altitudeRef == res[1].GPS.altitudeRef && res[0].GPS.latitudeRef == res[1].GPS.latitudeRef, "GPS reference tags decode alike under II and MM")
+		zzAssert(res[0].GPS.altitudeRef == (ar == 1) && res[0].GPS.latitudeRef == (lr == 'S'), "GPS reference tags carry the encoded sign")
+		zzAssert(zzF32bits(res[0].GPS.altitude) == zzF32bits(res[1].GPS.altitude), "GPSAltitude decodes alike under II and MM")
 	case 5: // an arbitrary entry with an arbitrary 8-byte value: nothing but the byte order differs
 		id, typ, cnt := zzU16("id"), zzU16("typ"), zzU32("cnt")
 		zzAssume(typ <= 13 && cnt <= 8)
